@@ -639,7 +639,7 @@ impl Check for C05 {
         prepare_probe();
     }
     fn rule(&self) -> String {
-        "each case = one execution of probes/threads under the tracer: 1..3 (thorough 1..5) batches of 1..6 threads; per thread a result type of 11 classes (() .. align 4096, and bool / Option<u32> / Result<u8,u8> / String for niches and heap ownership), returns or panics (1/3), 0..3 report records, optional sleep and heap allocation, handle fate join-now / join-after-the-others / drop-now / drop-later. The decision stream picks the scheduling mode (uniform, sticky 1/2 1/4 1/16, main-first, newest-first), the thread at every system-call stop, up to 6 single-step bursts of <=400 instructions (biased to the window after a thread's last record and after main's join/drop markers), and in 1/3 of the runs up to 2 failures of mmap(stack) or clone (EAGAIN/ENOMEM). every 4th case uses the debug build of the probe. non-trivial = >=2 context switches and (a futex park, a burst or a fired fault); distinct = hash of scenario x sequence of (thread, scheduling-point kind)".into()
+        "each case = one execution of probes/threads under the tracer: 1..3 (thorough 1..5) batches of 1..6 threads; per thread a result type of 11 classes (() .. align 4096, and bool / Option<u32> / Result<u8,u8> / String for niches and heap ownership), returns or panics (1/3), 0..3 report records, optional sleep and heap allocation, handle fate join-now / join-after-the-others / drop-now / drop-later. The decision stream picks the scheduling mode (uniform, sticky 1/2 1/4 1/16, main-first, newest-first), the thread at every system-call stop, up to 6 single-step bursts of <=400 instructions (biased to the window after a thread's last record and after main's join/drop markers), in 1/3 of the runs up to 2 failures of mmap(stack) or clone (EAGAIN/ENOMEM); in half of the runs the emulated wake of an exiting thread's clear-tid futex comes 1..4 or 1..24 quanta after the kernel's zero write is visible (two separate steps in the kernel), in a quarter the probe's allocator reuses freed blocks at once (no quarantine), in half a thread preempted inside a window is frozen for up to 6 or 16 quanta; FUTEX_WAIT timeouts run on the simulated clock. every 4th case uses the debug build of the probe. non-trivial = >=2 context switches and (a futex park, a burst or a fired fault); distinct = hash of scenario x sequence of (thread, scheduling-point kind)".into()
     }
     fn assumptions(&self) -> Vec<String> {
         vec![
@@ -680,7 +680,7 @@ impl Check for C06 {
         prepare_probe();
     }
     fn rule(&self) -> String {
-        "each case = one execution of probes/threads under the tracer: 2..7 (thorough 2..12) batches of 1..6 threads (1 case in 60 has 12..24 batches, thorough 1 in 40 has 20..60, i.e. up to 360 threads through one process), each thread returns or panics (1/2) and its handle is joined at once, joined after the others, dropped at once or dropped later; 1 run in 5 fails up to 2 stack mmaps or clones (a failed spawn must leave nothing behind); half of the runs freeze a thread preempted inside a window for up to 6 or 16 quanta. Scheduling as in C05 (thread choice at every system-call stop, <=6 single-step bursts of <=400 instructions in the epilogue / join / drop windows). Checked per thread: its stack mapping is unmapped exactly once, whole, by itself, as its last call before exit; per batch (after the tracer's barrier): no thread stack mapped, live heap allocations = baseline + one closure per panicked thread, no double/foreign free, poison of every quarantined freed block intact (the kernel's clear-tid write or a late write by either party would break it). every 4th case uses the debug build (allocator assertions on). non-trivial = >=2 context switches, >=1 dropped handle and >=1 single-step burst; distinct = hash of scenario x sequence of (thread, scheduling-point kind)".into()
+        "each case = one execution of probes/threads under the tracer: 2..7 (thorough 2..12) batches of 1..6 threads (1 case in 60 has 12..24 batches, thorough 1 in 40 has 20..60, i.e. up to 360 threads through one process), each thread returns or panics (1/2) and its handle is joined at once, joined after the others, dropped at once or dropped later; 1 run in 5 fails up to 2 stack mmaps or clones (a failed spawn must leave nothing behind); half of the runs freeze a thread preempted inside a window for up to 6 or 16 quanta; deferred clear-tid wakes and the no-quarantine allocator mode as in C05 (a late wake or write aimed at a freed join state then meets the join state of the next thread). Scheduling as in C05 (thread choice at every system-call stop, <=6 single-step bursts of <=400 instructions in the epilogue / join / drop windows). Checked per thread: its stack mapping is unmapped exactly once, whole, by itself, as its last call before exit; per batch (after the tracer's barrier): no thread stack mapped, live heap allocations = baseline + one closure per panicked thread, no double/foreign free, poison of every quarantined freed block intact (the kernel's clear-tid write or a late write by either party would break it). every 4th case uses the debug build (allocator assertions on). non-trivial = >=2 context switches, >=1 dropped handle and >=1 single-step burst; distinct = hash of scenario x sequence of (thread, scheduling-point kind)".into()
     }
     fn assumptions(&self) -> Vec<String> {
         vec![
